@@ -40,12 +40,16 @@ Tol9d == TenPow(9)
 
 IsAmu(n) == \/ (Len(n) >= 3 /\ SubSeq(n, 1, 3) = "amu") \/ (Len(n) >= 3 /\ SubSeq(n, 1, 3) = "unc")
 
-\* floor = 1e-12 * |a1L|  expressed as: compare against max(|a|,|b|, |a1L|/1000)  with tol 1e-9
-Close(n, a, b, a1L) ==
+\* a_mu contributions and uncertainties: relative 1e-9, or within 1e-9 of the one-loop magnitude
+\* S1 = |a^chi0| + |a^chi+-| of the point.  (The one-loop total is a difference of these two - a cancellation by a
+\* factor 200 occurs on valid points - and each of them is a sum over mass eigenstates whose terms cancel when the two
+\* smuons are nearly degenerate; the two mathematically equal evaluations then agree to rounding times that
+\* cancellation, not to 1e-9 of the small result.  A sign error in any part changes it by O(1) of itself.)
+Close(n, a, b, s1) ==
    IF ~IsFin(a) \/ ~IsFin(b) THEN a.k = b.k
    ELSE IF IsAmu(n)
         THEN \/ RelClose(a, b, Tol9n, Tol9d)
-             \/ Le(Mul(TenPow(12), Abs(Sub(a, b))), Abs(a1L))
+             \/ Le(Mul(TenPow(9), Abs(Sub(a, b))), s1)
         ELSE RelClose(a, b, Tol9n, Tol9d)
 
 BadNames(ra, rb, a1L) == {n \in DOMAIN ra : ~Close(n, ra[n], rb[n], a1L)}
@@ -68,7 +72,7 @@ TEval ==
                THEN IF orig.exc # "" \/ ev.exc # ""
                     THEN /\ viol' = viol \o Failed(<<I("SameOutcome", orig.exc = ev.exc)>>, l, ev.sig)
                          /\ nchecked' = nchecked + 1
-                    ELSE LET a1L == orig.res["amu1L"]
+                    ELSE LET a1L == Add(Abs(orig.res["amu1LChi0"]), Abs(orig.res["amu1LChipm"]))
                              br == BadNames(orig.res, ev.res, a1L)
                              bm == BadNames(orig.mass, ev.mass, a1L)
                          IN /\ viol' = viol \o NameViol(br, l, ev.sig, "FlipInvariant:")
